@@ -99,6 +99,47 @@ def lean_list(items):
     return "[" + ", ".join(items) + "]"
 
 
+def dispatch_table(rel, variants):
+    """Arms of `match instruction.operation { .. }` in `process_instruction`: for each variant the
+    per-operation functions it calls and the `inps[..]` index expressions it passes, in order
+    (`*` = the whole input vector)."""
+    src = strip_comments(read(rel))
+    m = re.search(r"match instruction\.operation \{\n(.*?)\n        \};", src, flags=re.S)
+    if not m:
+        die("%s: match instruction.operation not found" % rel)
+    body = m.group(1)
+    heads = list(re.finditer(r"^ {12}([A-Z][A-Za-z0-9]*)(?:\((\w+)\))? => ", body, flags=re.M))
+    if [h.group(1) for h in heads] != [v[0] for v in variants]:
+        die("%s: the arms of process_instruction are not the variants of Operation in order" % rel)
+    rows = []
+    for k, h in enumerate(heads):
+        arm = body[h.end(): heads[k + 1].start() if k + 1 < len(heads) else len(body)]
+        calls = re.findall(r"\b([a-z0-9_]+_(?:offcircuit|incircuit)|into_bytes|from_bytes|get_t|get_type)\(", arm)
+        args = re.findall(r"inps\[([^\]]*)\]", arm)
+        args = [re.sub(r"\s+", "", a) for a in args]
+        if re.search(r"&inps\)|inps\.into_iter\(\)|inps\.iter\(\)", arm):
+            args.append("*")
+        if h.group(2):
+            args.append("payload:" + ("yes" if re.search(r"\b" + h.group(2) + r"\b", arm) else "unused"))
+        cmp_ = re.findall(r"inps\[0\] (==|!=) inps\[1\]", arm)
+        rows.append((h.group(1), calls + ["cmp" + c for c in cmp_[:1]], args))
+    return rows
+
+
+def op_sources():
+    """Non-test `fn`s declared at item / impl level in each file of instructions/operations/."""
+    d = os.path.join(REPO, "zkir/src/instructions/operations")
+    out = []
+    for f in sorted(os.listdir(d)):
+        if not f.endswith(".rs") or f == "mod.rs":
+            continue
+        src = strip_comments(open(os.path.join(d, f)).read())
+        src = src.split("#[cfg(test)]")[0]
+        fns = re.findall(r"^(?:    )?(?:pub(?:\(crate\))? )?fn ([a-z0-9_]+)", src, flags=re.M)
+        out.append((f[:-3], fns))
+    return out
+
+
 lines = [
     "/-! GENERATED by translators/c18_tables.py from the Rust sources of /repo — do not edit. -/",
     "namespace MidnightZK.C18.Gen",
@@ -114,6 +155,21 @@ lines = [
     "",
     "/-- `Operation::output_arity`. -/",
     "def outputArity : List (String × String) := " + lean_list('("%s", "%s")' % v for v in outa),
+    "",
+    "/-- `parser/offcircuit.rs: process_instruction`: per variant, the per-operation functions called",
+    "(`cmp==` / `cmp!=`: a direct comparison of the two inputs) and the input expressions passed, in",
+    "order (`*` = the whole vector, `payload:` whether the variant's payload is used). -/",
+    "def offDispatch : List (String × List String × List String) := "
+    + lean_list('("%s", %s, %s)' % (n, lean_list('"%s"' % c for c in cs), lean_list('"%s"' % a for a in as_)) for n, cs, as_ in dispatch_table("zkir/src/parser/offcircuit.rs", ops)),
+    "",
+    "/-- `parser/incircuit.rs: process_instruction`, same format. -/",
+    "def inDispatch : List (String × List String × List String) := "
+    + lean_list('("%s", %s, %s)' % (n, lean_list('"%s"' % c for c in cs), lean_list('"%s"' % a for a in as_)) for n, cs, as_ in dispatch_table("zkir/src/parser/incircuit.rs", ops)),
+    "",
+    "/-- Files of `zkir/src/instructions/operations/` (without `mod.rs`) and the functions they declare",
+    "outside their test modules. -/",
+    "def opSources : List (String × List String) := "
+    + lean_list('("%s", %s)' % (n, lean_list('"%s"' % c for c in fs)) for n, fs in op_sources()),
     "",
     "/-- `biguint/types.rs: LOG2_BASE`. -/",
     "def log2Base : Nat := %d" % log2_base,
